@@ -151,6 +151,70 @@ fn explore(cap: usize, hashes: [u64; NKEYS], max_depth: usize, rep: &mut Report)
     rep.traces += 1;
 }
 
+/// (a2) history-keyed enumeration: every sequence of insert(k, v) / get(k) calls up to a depth,
+/// executed on a fresh real cache, with NO observation other than the calls of the sequence
+/// themselves (a `get` may have side effects of its own - a reference bit, a "most recent hit"
+/// copy - which the blanket gets of the BFS above would overwrite, and which a key made from the
+/// slot dump cannot see). Every `get` of the sequence must return nothing or the value most
+/// recently inserted under exactly that key.
+fn enumerate_histories(cap: usize, hashes: [u64; NKEYS], keys: usize, depth: usize, rep: &mut Report) {
+    fn run(cap: usize, hashes: &[u64; NKEYS], hist: &[Act]) -> Result<(), String> {
+        let mut lru: Lru<u8, u8> = Lru::new(cap);
+        let mut model: [Option<u8>; NKEYS] = [None; NKEYS];
+        for (i, a) in hist.iter().enumerate() {
+            match *a {
+                Act::Insert(k, v) => {
+                    guarded(|| lru.insert(k, v, hashes[k as usize])).map_err(|p| format!("step {}: insert panicked: {}", i, p))?;
+                    model[k as usize] = Some(v);
+                }
+                Act::Get(k) => {
+                    let got = guarded(|| lru.get(k, hashes[k as usize])).map_err(|p| format!("step {}: get panicked: {}", i, p))?;
+                    match (got, model[k as usize]) {
+                        (None, _) => (),
+                        (Some(v), Some(m)) if v == m => (),
+                        (Some(v), m) => return Err(format!("step {}: get(key {}) returned {} but the value most recently inserted under that key is {:?}", i, k, v, m)),
+                    }
+                }
+            }
+        }
+        Ok(())
+    }
+    let mut alphabet: Vec<Act> = Vec::new();
+    for k in 0..keys as u8 {
+        alphabet.push(Act::Get(k));
+        for v in 0..2u8 {
+            alphabet.push(Act::Insert(k, v));
+        }
+    }
+    // histories that end in a get (a trailing insert is observed by nothing); executed from scratch
+    let mut hist: Vec<Act> = Vec::new();
+    fn rec(cap: usize, hashes: &[u64; NKEYS], alphabet: &[Act], hist: &mut Vec<Act>, left: usize, rep: &mut Report) {
+        if rep.n_violations > 2 {
+            return;
+        }
+        for a in alphabet.iter() {
+            hist.push(*a);
+            if let Act::Get(_) = a {
+                rep.transitions += hist.len() as u64;
+                rep.states += 1;
+                if let Err(e) = run(cap, hashes, hist) {
+                    rep.violation(
+                        "lru:wrong-value",
+                        format!("capacity 2^{} hashes {:?} history {:?} (no other calls): {}", cap, hashes, hist, e),
+                        json!({"kind": "lru_history", "cap": cap, "hashes": hashes, "history": hist.iter().map(act_json).collect::<Vec<_>>()}),
+                    );
+                }
+            }
+            if left > 1 {
+                rec(cap, hashes, alphabet, hist, left - 1, rep);
+            }
+            hist.pop();
+        }
+    }
+    rec(cap, &hashes, &alphabet, &mut hist, depth, rep);
+    rep.traces += 1;
+}
+
 pub fn run(ctx: &Ctx) -> Report {
     let mut rep = Report::new(
         "(a) real Lru<u8,u8>: initial capacities 2^0, 2^1, 2^2, keys 0..3 with every key->hash map of the family (quick: all maps into {0..3} plus collision patterns into {0..7}; thorough: all 8^4 maps into {0..7}), alphabet insert(k, v in {0,1}) with all gets after every step; BFS to closure de-duplicated on (slots, capacity, fill counter, model); oracle: a get returns nothing or the value most recently inserted under exactly that key, and the value just inserted is retrievable; (b) every BDD sweep history on lossy-cache builders at capacities 2^0..2^4 and default, structurally identical results in lock step with the cache-everything builder; (c) SDD apply/ite results identical to those of a cold builder; distinct = Lru state / (configuration, operation)",
@@ -197,6 +261,36 @@ pub fn run(ctx: &Ctx) -> Report {
     rep.merge(a);
     if not_closed > 0 {
         rep.cap(format!("{} Lru configurations did not reach closure within depth 40", not_closed));
+    }
+    // (a2) all call sequences, no dedup, no extra observation
+    {
+        let depth = ctx.tier.pick(5, 6);
+        let keys = 3usize;
+        let hs: [u64; 4] = [0, 1, 4, 5];
+        let mut items2: Vec<(usize, [u64; NKEYS])> = Vec::new();
+        for cap in 0..3usize {
+            for a in hs {
+                for b in hs {
+                    for c in hs {
+                        // up to renaming of the keys: non-decreasing hash triples only in quick
+                        if ctx.tier == Tier::Quick && !(a <= b && b <= c) {
+                            continue;
+                        }
+                        items2.push((cap, [a, b, c, 0]));
+                    }
+                }
+            }
+        }
+        let n2 = items2.len();
+        let h = par_run(ctx, &items2, |_, (cap, m)| {
+            let mut r = Report::default();
+            r.exhaustive = true;
+            enumerate_histories(*cap, *m, keys, depth, &mut r);
+            r
+        });
+        rep.add_extra("lru_call_sequences_enumerated", h.states);
+        rep.bound("lru_call_sequences", json!({"alphabet": "insert(k, v in {0,1}) / get(k), 3 keys", "depth": depth, "capacities": [0, 1, 2], "key_to_hash_maps": n2, "hash_values": hs, "observation": "only the gets of the sequence itself"}));
+        rep.merge(h);
     }
     rep.floor("Lru growths", growths, 1);
     rep.floor("Lru overwrites of a different key", over, 1);
@@ -250,6 +344,17 @@ pub fn replay(ctx: &Ctx, case: &Value) -> Report {
             if let Err((i, e)) = r {
                 rep.violation("lru:wrong-value", format!("step {}: {}", i, e), case.clone());
             }
+        }
+        Some("lru_history") => {
+            let cap = case["cap"].as_u64().unwrap_or(0) as usize;
+            let mut hashes = [0u64; NKEYS];
+            if let Some(a) = case["hashes"].as_array() {
+                for (i, h) in a.iter().enumerate().take(NKEYS) {
+                    hashes[i] = h.as_u64().unwrap_or(0);
+                }
+            }
+            let depth = case["history"].as_array().map(|a| a.len()).unwrap_or(1);
+            enumerate_histories(cap, hashes, 3, depth, &mut rep);
         }
         Some("bdd_sweep") | Some("bdd_r1") => rep.merge(crate::props::bddsweep::replay_for(ctx, "C16", case)),
         Some("sdd_sweep") => rep.merge(crate::props::sddsweep::replay_for(ctx, "C16", case)),
